@@ -224,7 +224,7 @@ pub fn property(tier: Tier) -> Property {
             panic_is_violation: false,
             render: |c: &RenCase| format!("{} naming1={:?} naming2={:?} preintern_reverse={}", c.base.render(), c.base.naming, c.naming2, c.preintern_reverse),
             rule: "a mixed history (insertions, unions, rewrite iterations, min-size analysis, extraction) run twice in fresh threads under two injective spellings of the slot alphabet ($a.., $1.., $300-i (reversed numeric order), $f0.. (collides with internal fresh names), $z.. ; optionally interned in reverse order); every observable compared in abstract names; non-trivial = the renaming reverses the internal order of slots occurring together in a node and the history has a symmetry or a redundancy; distinct by rendered case",
-            case_timeout_s: tier.pick(120, 600),
+            case_timeout_s: tier.pick(30, 120),
             exhaustive: false,
         }));
     }
